@@ -1,8 +1,137 @@
-"""C10 -- contracts (proof part under construction) + bounded stand-in."""
-from pyvc.runner import Bounded
+"""C10 -- context config survives export/import; a failed change changes nothing."""
+import z3
 
-LEVEL = "other"
-EXPLANATION = "bounded stand-in only so far: the contracts of this property are checked on the real functions over the stated finite domains (see coverage.bounded); nothing is counted as proved."
-ASSUMPTIONS = []
+from contracts.trusted import COMMON, fresh_str, may_fail
+from pyvc.contract import Bool, Const, Contract, Int, NoneT, Obj, Opt, Str, Union
+from pyvc.runner import Bounded
+from pyvc.symexec import RaiseSig, exc_class
+from pyvc.values import SBool, SDict, SExc, SList, SObj, SStr, SStub, SType
+
+LEVEL = "proof"
+CTX = "passlib/context.py"
+EXPLANATION = (
+    "Exception atomicity of CryptContext.load: the real body is executed with every fallible step (INI parsing, key "
+    "parsing, building the _CryptConfig from hashers whose using() may raise) free to raise at any point; every "
+    "exceptional exit is proved to occur before the first write to self, so a failed load/update leaves the context "
+    "answering as before; a successful load installs the new config, its record getters and resets the dummy-verify "
+    "cache exactly once; update() with an empty source returns before any write; _norm_scheme_option refuses a 'salt' "
+    "option whatever the value's type. Export/import equality is covered by the bounded stand-in."
+)
+ASSUMPTIONS = [
+    "_CryptConfig(source) writes only the fresh config object and the fresh subclasses returned by handler.using() (frame of using(): C09)",
+    "dict(...), dict.update and StringIO do not raise",
+]
+
+
+def counting(name, fn):
+    def call(it, args, kwargs):
+        if not it.spec:
+            it.run.calls.append((name, ()))
+        return fn(it, args, kwargs)
+
+    return SStub(call, name)
+
+
+def _failing(name, excs, result):
+    def call(it, args, kwargs):
+        for e in excs:
+            may_fail(it, e, f"{name}.{e}")
+        return result(it, args, kwargs)
+
+    return SStub(call, name, trusted=f"{name}: may raise {excs} at any call")
+
+
+def _new_config(it, args, kwargs):
+    for e in ("ValueError", "TypeError", "KeyError"):
+        may_fail(it, e, f"_CryptConfig.{e}")
+    cfg = SObj(it.run.fresh("new_config"), fresh=True, fields={
+        "get_record": SStub(lambda i, a, k: None, "config.get_record"),
+        "identify_record": SStub(lambda i, a, k: None, "config.identify_record"),
+        "context_kwds": Union(Const(()), Const(("user",))).make(it, it.run.fresh("context_kwds")),
+    })
+    it.run.ghost["new_config"] = cfg
+    return cfg
+
+
+def _load_setup(kind):
+    def setup(it, args):
+        self = args["self"]
+        old = SObj("old_config", fields={"iter_config": SStub(lambda i, a, k: SList([(("k", "a", "b"), "old")]), "iter_config")})
+        self.fields["_config"] = Union(Const(None), Const(old)).make(it, "self._config")
+        self.fields["_parse_ini_stream"] = _failing("_parse_ini_stream", ("ValueError", "KeyError"), lambda i, a, k: SDict({"schemes": fresh_str(i, "ini_value")}))
+        self.fields["_parse_config_key"] = _failing("_parse_config_key", ("KeyError", "TypeError"), lambda i, a, k: (None, None, a[0]))
+        self.fields["_reset_dummy_verify"] = counting("_reset_dummy_verify", lambda i, a, k: None)
+        self.fields["_get_record"] = "old getter"
+        self.fields["_identify_record"] = "old identifier"
+        it.run.ghost["old_config"] = old
+        if kind == "dict":
+            args["source"] = SDict({"schemes": fresh_str(it, "schemes"), "default": fresh_str(it, "default")})
+        elif kind == "empty":
+            args["source"] = SDict({})
+        elif kind == "text":
+            args["source"] = fresh_str(it, "ini_text")
+        elif kind == "context":
+            other_cfg = SObj("other_config", fields={"iter_config": SStub(lambda i, a, k: SList([((None, None, "schemes"), "x")]), "iter_config")})
+            args["source"] = SObj("other_context", cls=__import__("pyvc.symexec", fromlist=["ClassRef"]).ClassRef.get(CTX, "CryptContext"), fields={"_config": other_cfg})
+        elif kind == "bad":
+            args["source"] = 5
+        return {"old_config": old}
+
+    return setup
+
+
+def _installed(it, env):
+    self = env.lookup("self")
+    cfg = it.run.ghost.get("new_config")
+    if cfg is None:
+        return False
+    return self.fields.get("_config") is cfg and self.fields.get("_get_record") is cfg.fields["get_record"] and self.fields.get("_identify_record") is cfg.fields["identify_record"]
+
+
+def _untouched(it, env):
+    self = env.lookup("self")
+    return self.fields.get("_get_record") == "old getter" and self.fields.get("_identify_record") == "old identifier" and not any(w[0] is self for w in it.run.writes)
+
+
 CONTRACTS = []
-BOUNDED = [Bounded("c10", "harness/c10.py", descr="see harness docstring", timeout=900)]
+for _kind in ("dict", "empty", "text", "context", "bad"):
+    CONTRACTS.append(Contract(
+        f"CryptContext.load[{_kind} source]", f"{CTX}::CryptContext.load",
+        params={"self": Obj(cls=(CTX, "CryptContext")), "source": Const(None), "update": Bool(), "section": Const("passlib"), "encoding": Const("utf-8")},
+        setup=_load_setup(_kind),
+        globals={"new._CryptConfig": SStub(_new_config, "_CryptConfig(source)", trusted="may raise ValueError/TypeError/KeyError; writes only fresh objects"),
+                 "StringIO": SStub(lambda it, a, k: a[0], "StringIO"), "unicode_or_bytes": (SType("str"), SType("bytes"))},
+        raises={"ValueError": None, "TypeError": None, "KeyError": None},
+        atomic=True,
+        ensures=[
+            ("an empty update returns before any write", lambda it, env: True if it.run.ghost.get("new_config") is not None else _untouched(it, env)),
+            ("a successful load installs the new config and its record getters", lambda it, env: True if it.run.ghost.get("new_config") is None else _installed(it, env)),
+            ("the dummy-verify cache is reset exactly once per installed config", lambda it, env: (it.bi_calls("_reset_dummy_verify") == (1 if it.run.ghost.get("new_config") is not None else 0))),
+        ],
+        descr=f"source kind: {_kind}; every fallible step may raise",
+    ))
+
+# ---- a configuration can never pin a salt ---------------------------------------------------------------
+CONTRACTS.append(Contract(
+    "_CryptConfig._norm_scheme_option[salt]", f"{CTX}::_CryptConfig._norm_scheme_option",
+    params={"self": Obj(), "key": Const("salt"), "value": Union(Str(), __import__("pyvc.contract", fromlist=["Bytes"]).Bytes(), Int(), NoneT())},
+    raises={"KeyError": None},
+    ensures=[("a 'salt' option is never accepted", "False")],
+    descr="value of any type (str, bytes, int, None)",
+))
+CONTRACTS.append(Contract(
+    "_CryptConfig._norm_scheme_option[other keys]", f"{CTX}::_CryptConfig._norm_scheme_option",
+    params={"self": Obj(), "key": Union(Const("rounds"), Const("min_rounds"), Const("vary_rounds"), Const("salt_size"), Const("ident")), "value": Union(Int(), NoneT())},
+    globals={"_coerce_scheme_options": SDict({})},
+    ensures=[("non-string values pass through unchanged", "result[0] == key and implies(value is None, result[1] is None) and implies(value is not None, result[1] == value)")],
+))
+
+BOUNDED = [Bounded("c10", "harness/c10.py", descr="export/import equality and failed-change invariance on generated configs", timeout=900)]
+
+MUTANTS = [
+    ("load: config swapped before it is built", CTX, "        config = _CryptConfig(source)\n        self._config = config\n", "        self._config = None\n        config = _CryptConfig(source)\n        self._config = config\n", "refute"),
+    ("load: dummy-verify cache not reset", CTX, "        self._config = config\n        self._reset_dummy_verify()\n", "        self._config = config\n", "refute"),
+    ("load: record getter installed before the config is built", CTX, "        config = _CryptConfig(source)\n        self._config = config\n        self._reset_dummy_verify()\n        self._get_record = config.get_record\n", "        self._get_record = None\n        config = _CryptConfig(source)\n        self._config = config\n        self._reset_dummy_verify()\n        self._get_record = config.get_record\n", "refute"),
+    ("_norm_scheme_option: non-strings returned before the salt check", CTX, "        # check for invalid options\n        if key in _forbidden_scheme_options:\n            raise KeyError(f\"{key!r} option not allowed in CryptContext configuration\")\n", "        if not isinstance(value, str):\n            return key, value\n        # check for invalid options\n        if key in _forbidden_scheme_options:\n            raise KeyError(f\"{key!r} option not allowed in CryptContext configuration\")\n", "refute"),
+    ("load: harmless reordering of the last two assignments", CTX, "        self._get_record = config.get_record\n        self._identify_record = config.identify_record\n", "        self._identify_record = config.identify_record\n        self._get_record = config.get_record\n", "hold"),
+]
